@@ -25,6 +25,7 @@ def main():
     ap.add_argument("prop")
     ap.add_argument("--tier", default=os.environ.get("VERIF_TIER", "quick"))
     ap.add_argument("--replay")
+    ap.add_argument("--mkwitness")
     a = ap.parse_args()
     if a.prop not in checks.SPECS:
         print("HARNESS-ERROR: unknown property %s" % a.prop)
@@ -33,6 +34,8 @@ def main():
     try:
         if a.replay:
             return runner.do_replay(spec, a.replay)
+        if a.mkwitness:
+            return runner.make_witness(spec, a.mkwitness, rng.master_seed())
         tier = a.tier if a.tier in ("quick", "thorough") else "quick"
         return runner.main_check(spec, tier, rng.master_seed())
     except Exception:
